@@ -6,6 +6,7 @@ mod stmtfam;
 mod harness;
 mod luarun;
 mod refsylt;
+mod scope;
 mod selftest;
 mod pool;
 mod report;
@@ -57,6 +58,17 @@ fn main() {
                     break;
                 }
             }
+            0
+        });
+        std::process::exit(code);
+    }
+    if args[0] == "show-c14" {
+        let code = pool::on_fresh_thread(1, move || {
+            let (_, p) = stmtfam::all_programs(false).into_iter().find(|(f, _)| f.starts_with("recursion:argument-slots")).unwrap();
+            let mut v = p.clone();
+            ast::restyle(&mut v, &[ast::CallStyle::Prime, ast::CallStyle::Arrow, ast::CallStyle::ArrowPrime, ast::CallStyle::Arrow]);
+            let t = ast::print_with(&v, ast::PrintOpts { explicit_ret: true, loop_true: true, ..Default::default() }).text;
+            println!("{}\n=> {}", t, harness::compile_src(&t).short());
             0
         });
         std::process::exit(code);
@@ -119,6 +131,18 @@ fn main() {
                 run = Run::new("C07", &tier, "fault_enumeration");
                 engines::c07::run(&mut run);
             }
+            "C08" => {
+                run = Run::new("C08", &tier, "exploration");
+                engines::c08::run(&mut run);
+            }
+            "C14" => {
+                run = Run::new("C14", &tier, "exploration");
+                engines::c14::run(&mut run);
+            }
+            "C09" => {
+                run = Run::new("C09", &tier, "exploration");
+                engines::c09::run(&mut run);
+            }
             "C10" => {
                 run = Run::new("C10", &tier, "model_checking");
                 engines::c10::run(&mut run);
@@ -153,6 +177,9 @@ fn replay(dir: &str) -> i32 {
         "c17" => engines::c17::replay(case),
         "c13" => engines::c13::replay(case),
         "faults" => engines::faults::replay(case),
+        "c09" | "c09-plant" => engines::c09::replay(case),
+        "c14" => engines::c14::replay(case),
+        "c08" => engines::c08::replay(case),
         "c06" => engines::c06::replay(case),
         "c01" => engines::c01::replay(case),
         "c07" => engines::c07::replay(case),
